@@ -55,6 +55,13 @@ def autov(case_id):
     return _autov_tail(case_id)
 
 
+@m.memento_function
+def autoboth(case_id):
+    """Automatic version, two memento functions beneath it (C09)."""
+    REC.hit("autoboth", case_id)
+    return [produce(case_id), produce2(case_id)]
+
+
 @m.memento_function(cluster="c", version="p1")
 def cproduce(case_id):
     return _produce("cproduce", case_id)
